@@ -6,6 +6,16 @@ dryoc's own sequence of hashing, reduction and encoding around the Edwards-curve
 arithmetic of curve25519-dalek.  The curve operations are taken from
 `Spec.Ed25519` (they stand for dalek and are compared with it differentially); SHA-512
 is a parameter.
+
+MODELLING NOTES.
+* The Rust feeds SHA-512 through separate calls (`hasher.update(DOM2PREFIX)` in pre-hashed mode,
+  `hasher.update(&az[32..])` / `hasher.update(&signature[..32])`, `hasher.update(public_key)` / the key half of
+  `signature`, `hasher.update(message)`, `finalize()`); here `H` is applied ONCE to the concatenation
+  (`H (dom ++ … ++ msg)`).  That a sequence of `update`s hashes the concatenation is a property of the `sha2` crate's
+  incremental hasher (dependency code, not modelled).
+* Everything here is TOTAL on byte lists.  Where the Rust can panic on the signing side (`secret_key.as_array()` on a
+  short `Vec`, `split_at_mut` / `copy_from_slice` behind the length test of `crypto_sign`) the code-shaped functions
+  are in `Model/SignView.lean`; the verifying side is in `Model/ObjectView.lean`.
 -/
 namespace DryocVerif.Model.Sign
 open DryocVerif DryocVerif.Spec.Ed25519
